@@ -330,6 +330,8 @@ def run(ctx):
         if quick and i > 16:
             break
         cfg = reqgen.gen_config(rng, sizes=[1, 1, 2, 3, 5, 8, 16, 40] + ([300] if i % 3 == 0 else []))
+        if i % 2:
+            cfg = cfg[:5] + [('BigOne', rng.choice(['INT', 'DINT', 'LINT', 'REAL']), rng.choice([300, 500, 700]), None)]
         cfg = [(n, t, min(s, 5) if t in ('SSTRING', 'STRING') else s, a) for n, t, s, a in cfg]
         run_history(ctx, cfg, 40 if quick else rng.choice([40, 80]), tcp=(i % 4 == 0))
 
